@@ -62,6 +62,13 @@ mod assignment_post_conversion_validation_rules {
         left_side: &Expression,
         right_side: &ExpressionPos,
     ) -> Result<(), LintErrorPos> {
+        // `A(1) = 2` without an array `A` was resolved as a function call
+        if matches!(
+            left_side,
+            Expression::FunctionCall(_, _) | Expression::BuiltInFunctionCall(_, _)
+        ) {
+            return Err(LintError::ArrayNotDefined.at(right_side));
+        }
         if right_side.can_cast_to(left_side) {
             Ok(())
         } else {
